@@ -1,3 +1,4 @@
+import Sx.Lemmas.Ghost
 import Sx.Props.C16
 /-
   C07 — interrupt flags: every event is acted on once; none is lost or cleared unseen.
@@ -81,5 +82,96 @@ theorem C07_cad_done (fuel : Nat) (h : Handle) (c : Chip) (hl : c.isLora = true)
     readN_one _ 0x12 (by decide), show (0x12 % 128) = 0x12 from rfl, peek_lora _ _ hl (show inPage 0x12 = true by decide),
     be32_single, writeN_one, flag_consts.1, flag_consts.2.2.2.2.2, hcad, ne_eq, not_false_eq_true, ↓reduceIte, hcb, wp_cb]
   exact ⟨by trivial, by trivial⟩
+
+/-- "nothing is pending" for the FSK/OOK handler in a given mode: no PayloadReady, no PacketSent;
+    in TX mode the FIFO is neither empty nor below the threshold; in RX mode the FIFO is not above
+    the threshold (or it is full, which the handler does not serve), and RegIrqFlags1 shows
+    neither PreambleDetect nor SyncAddressMatch -/
+def FskIdle (opmod : Nat) (v v1 : UInt8) : Prop :=
+  v &&& 0x04 = 0 ∧ v &&& 0x08 = 0 ∧
+  (opmod = Gen.SX127x_MODE_TX → v &&& 0x40 = 0 ∧ ¬(v &&& 0x20 = 0 ∧ v &&& 0x80 = 0)) ∧
+  ((opmod = Gen.SX127x_MODE_RX_CONT ∨ opmod = Gen.SX127x_MODE_RX_SINGLE) →
+    ¬(v &&& 0x20 ≠ 0 ∧ v &&& 0x80 = 0) ∧ v1 &&& 0x02 = 0 ∧ v1 &&& 0x01 = 0)
+
+/-- the environment of an idle invocation: the two flag registers read `v` and `v1`; the ghost
+    Boolean records whether the handler did anything but acknowledge them (a write to any other
+    register, a burst write, a callback) -/
+def idleE (v v1 : UInt8) : GEnv Bool where
+  R g q a g' :=
+    match q, a with
+    | .rread reg, .u8 r => (reg = 0x3f → r = .ok v) ∧ (reg = 0x3e → r = .ok v1) ∧ g' = g
+    | .swrite reg d, .unit _ => g' = (g || !((reg = 0x3f ∧ d = [v]) ∨ (reg = 0x3e ∧ d = [v1])))
+    | .bwrite _ _, _ => g' = true
+    | _, _ => g' = g
+  C _ _ _ _ g' := g' = true
+
+
+
+theorem idle_consts : u8 Gen.SX127X_FSK_IRQ_PAYLOAD_READY = 0x04 ∧ u8 Gen.SX127X_FSK_IRQ_PACKET_SENT = 0x08 ∧
+    u8 Gen.SX127X_FSK_IRQ_FIFO_EMPTY = 0x40 ∧ u8 Gen.SX127X_FSK_IRQ_FIFO_LEVEL = 0x20 ∧ u8 Gen.SX127X_FSK_IRQ_FIFO_FULL = 0x80 ∧
+    u8 Gen.SX127X_FSK_IRQ_PREAMBLE_DETECT = 0x02 ∧ u8 Gen.SX127X_FSK_IRQ_SYNC_ADDRESS_MATCH = 0x01 := by decide
+
+/-- **C07, idle invocation (FSK/OOK).** In every mode, with any handle: when the flag registers
+    show nothing pending for that mode, one invocation of the handler invokes no callback, writes
+    nothing but the acknowledgement of exactly the flag bytes it read (RegIrqFlags2, and
+    RegIrqFlags1 in receive mode), and leaves the handle as it was. -/
+theorem C07_idle_fsk (fuel : Nat) (h : Handle) (v v1 : UInt8) (hidle : FskIdle h.opmod v v1) :
+    DM.gwp (idleE v v1) (fskOokHandleInterrupt fuel) h false (fun g' _ h' => g' = false ∧ h' = h) := by
+  obtain ⟨hpr, hps, htx, hrx⟩ := hidle
+  unfold fskOokHandleInterrupt
+  rw [gwp_bind, gwp_rread]
+  intro r g1 hr
+  obtain ⟨hr1, _, hg1⟩ := hr
+  have hr1' := hr1 rfl
+  subst hr1' hg1
+  dsimp only
+  rw [gwp_bind, gwp_swrite]
+  intro r2 g2 hr2
+  have hg2 : g2 = false := by
+    have : g2 = (false || !((Gen.REGIRQFLAGS2 = 0x3f ∧ [v] = [v]) ∨ (Gen.REGIRQFLAGS2 = 0x3e ∧ [v] = [v1]))) := hr2
+    rw [this]; simp
+  subst hg2
+  cases r2 with
+  | error c => exact ⟨rfl, rfl⟩
+  | ok u =>
+    dsimp only
+    rw [gwp_bind, gwp_getH]
+    dsimp only
+    simp only [idle_consts.1, idle_consts.2.1, idle_consts.2.2.1, idle_consts.2.2.2.1, idle_consts.2.2.2.2.1,
+      idle_consts.2.2.2.2.2.1, idle_consts.2.2.2.2.2.2, hpr, hps, ne_eq, not_true_eq_false, ↓reduceIte]
+    by_cases hmtx : h.opmod = Gen.SX127x_MODE_TX
+    · obtain ⟨he, hl⟩ := htx hmtx
+      rw [gwp_ite, if_pos hmtx, gwp_ite, if_neg (fun hn => hn he), gwp_ite, if_neg hl, gwp_pure]
+      exact ⟨rfl, rfl⟩
+    · rw [gwp_ite, if_neg hmtx]
+      by_cases hmrx : h.opmod = Gen.SX127x_MODE_RX_CONT ∨ h.opmod = Gen.SX127x_MODE_RX_SINGLE
+      · obtain ⟨hlv, hp1, hs1⟩ := hrx hmrx
+        rw [gwp_ite, if_pos hmrx, gwp_ite, if_neg hlv, gwp_bind, gwp_rread]
+        intro r3 g3 hr3
+        obtain ⟨_, hr3', hg3⟩ := hr3
+        have hr3'' := hr3' rfl
+        subst hr3'' hg3
+        dsimp only
+        rw [gwp_bind, gwp_swrite]
+        intro r4 g4 hr4
+        have hg4 : g4 = false := by
+          have : g4 = (false || !((Gen.REGIRQFLAGS1 = 0x3f ∧ [v1] = [v]) ∨ (Gen.REGIRQFLAGS1 = 0x3e ∧ [v1] = [v1]))) := hr4
+          rw [this]; simp
+        subst hg4
+        cases r4 with
+        | error c => exact ⟨rfl, rfl⟩
+        | ok u4 =>
+          dsimp only
+          rw [gwp_bind, gwp_getH]
+          dsimp only
+          simp only [hp1, hs1, not_true_eq_false, false_and, ↓reduceIte]
+          exact ⟨rfl, rfl⟩
+      · rw [gwp_ite, if_neg hmrx, gwp_pure]
+        exact ⟨rfl, rfl⟩
+
+/-- non-vacuity: an empty FIFO in receive mode, a half-full FIFO in transmit mode and any flags
+    without PayloadReady/PacketSent in standby are idle -/
+example : FskIdle Gen.SX127x_MODE_RX_CONT 0x40 0x00 ∧ FskIdle Gen.SX127x_MODE_TX 0x20 0x00 ∧
+    FskIdle Gen.SX127x_MODE_STANDBY 0xe0 0xff := by unfold FskIdle; decide
 
 end Sx
